@@ -36,4 +36,35 @@ RefKinds == {"registered", "project", "control", "control_named", "original"}
 IdealModules(d) == {d.modules[i].name : i \in 1..Len(d.modules)}
 IdealRefs(d) == [i \in 1..Len(d.refs) |-> d.refs[i].name]
 IdealLen(d, i) == SumLen(Shape(d.modules[i].shape))
+
+--------------------------------------------------------------------------
+(* X07 (extended coverage): description and path of a reference.  A reference record carries one to three     *)
+(* LIBIDs -- REGISTERED one; CONTROL a twiddled and an extended one; ORIGINAL + CONTROL the original one       *)
+(* first -- of the form  *\G{guid}#version#lcid#path#description.  Reference::set_libid is applied to each in  *)
+(* order: an empty libid and one ending in "##" change nothing; otherwise the description is the text after    *)
+(* the last '#', and the text before it is the path unless a path is already set ("use original path").       *)
+(* A PROJECT reference's path is its absolute libid without the "*\C" prefix.  A libid is modelled by its id.  *)
+LibIds == {"std", "other", "nopath", "hashhash", "empty"}
+LibDesc(l) == CASE l = "std" -> "OLE Automation" [] l = "other" -> "Other Lib" [] l = "nopath" -> "Desc Only" [] OTHER -> ""
+LibPath(l) == CASE l = "std" -> "C:\\Windows\\System32\\stdole2.tlb" [] l = "other" -> "D:\\lib\\other.dll" [] OTHER -> ""
+Effective(l) == l \notin {"hashhash", "empty"}
+NLibs(kind) == CASE kind = "registered" -> 1 [] kind \in {"control", "control_named"} -> 2 [] kind = "original" -> 3 [] OTHER -> 0
+RECURSIVE ApplyLibs(_, _)
+\* ref = [desc, path]; libs applied left to right
+ApplyLibs(ref, libs) ==
+  IF libs = <<>> THEN ref
+  ELSE LET l == Head(libs)
+           r2 == IF ~Effective(l) THEN ref
+                 ELSE [desc |-> LibDesc(l), path |-> IF LibPath(l) # "" /\ ref.path = "" THEN LibPath(l) ELSE ref.path]
+       IN ApplyLibs(r2, Tail(libs))
+RefDetail(r) ==
+  IF r.kind = "project" THEN [name |-> r.name, desc |-> r.name, path |-> "C:\\books\\other.xlsm"]
+  ELSE LET x == ApplyLibs([desc |-> r.name, path |-> ""], r.libs) IN [name |-> r.name, desc |-> x.desc, path |-> x.path]
+\* the two rules as properties of the model (TLC: MC_VbaDir_refs.cfg)
+PathIsFirst(r) == r.kind # "project" =>
+   LET withp == SelectSeq(r.libs, LAMBDA l : Effective(l) /\ LibPath(l) # "")
+   IN RefDetail(r).path = (IF withp = <<>> THEN "" ELSE LibPath(withp[1]))
+DescIsLast(r) == r.kind # "project" =>
+   LET eff == SelectSeq(r.libs, Effective)
+   IN RefDetail(r).desc = (IF eff = <<>> THEN r.name ELSE LibDesc(eff[Len(eff)]))
 =============================================================================
